@@ -250,6 +250,19 @@ def run(ctx: Ctx) -> Result:
                 ps = list(pairs); ps[a], ps[b] = ps[b], ps[a]
                 res.note_case((repr(shape), codes, sp.i, 'levels-swapped', a, b))
                 check_rejected(f'leaf {sp.i}: levels {a} and {b} exchanged', lock, serialise(T, ps), {c for _, c in ps[:max(a, b) + 1]}, inp)
+            # truncated proofs: the outermost sibling hash missing (MERKLEVAL finds a single item), nothing at all, one level missing
+            top_sib, top_code = pairs[-1]
+            res.note_case((repr(shape), codes, sp.i, 'truncated'))
+            check_rejected(f'leaf {sp.i}: only the outermost script, no sibling hash', lock, push(T, top_code), {top_code}, inp)
+            check_rejected(f'leaf {sp.i}: empty witness', lock, b'', set(), inp)
+            if d >= 2:
+                check_rejected(f'leaf {sp.i}: innermost level missing', lock, serialise(T, pairs[1:]), set(), inp)
+                check_rejected(f'leaf {sp.i}: outermost level missing', lock, serialise(T, pairs[:-1]), {c for _, c in pairs[:-1]}, inp)
+            # ... and the honest proof still works afterwards (a rejected proof leaves nothing behind in the interpreter)
+            ok_again, o_again, _ = auth([lf.unlocking_script().bytes, lock])
+            own_again = auth([sp.code], record=False)[0]
+            if ok_again != own_again:
+                B.viol(f'leaf {sp.i}: honest proof after rejected proofs does not give the leaf\'s own verdict', {**{k: v for k, v in inp.items() if not k.startswith('_')}, 'scripts': [lf.unlocking_script().bytes.hex(), lock.hex()]}, own_again, o_again[:80])
             # a foreign leaf in place of this one (sibling hashes kept), and a whole foreign proof
             fsp, flf, _ = rng.choice(foreign_leaves)
             res.note_case((repr(shape), codes, sp.i, 'foreign-leaf'))
